@@ -417,21 +417,14 @@ func TestVerifC16Cycle(t *testing.T) {
 	if h == nil {
 		t.Skip("VERIF_OUT not set")
 	}
-	// the limiter logs every refusal with klog.ErrorS; keep the run quiet
-	kfs := flag.NewFlagSet("c16cy-klog", flag.ContinueOnError)
-	klog.InitFlags(kfs)
-	_ = kfs.Set("logtostderr", "false")
-	_ = kfs.Set("alsologtostderr", "false")
-	_ = kfs.Set("stderrthreshold", "FATAL")
-	klog.LogToStderr(false)
-	klog.SetOutput(io.Discard)
+	c16cyQuiet()
 	n := h.N(300, 3000)
 	for idx := 0; idx < n; idx++ {
 		r := h.Begin(idx)
 		if r == nil {
 			continue
 		}
-		c16cyCase(h, r)
+		c16cyCase(h, r, nil)
 		h.End()
 	}
 	h.Close("one case = one history of 2-5 descheduling cycles (Descheduler.deschedulerOnce) of a real Descheduler built by New() with 1 or 2 (1/3) profiles " +
@@ -445,7 +438,53 @@ func TestVerifC16Cycle(t *testing.T) {
 		"Non-trivial = some cycle issued evictions in both phases and refused at least one eviction")
 }
 
-func c16cyCase(h *vHarness, r *vRand) {
+// c16cyForced fixes caps and the attempts of both phases (exhaustive small-scope stream): one profile, no dry-run, the same
+// cycle run twice so that the Reset at the start of a cycle is exercised with non-zero counters
+type c16cyForced struct {
+	capNode, capNs, capTotal int
+	ph                       [3][]int // [phase] -> pod kinds: 0 (n1,s0) 1 (n2,s0) 2 (n1,s1) 3 (n1,s0) with a failing API call
+}
+
+// TestVerifC16CycleExhaustive: every cap setting in {nil,1,2}^3 x every pair of attempt lists of length <= 2 over four pod kinds
+func TestVerifC16CycleExhaustive(t *testing.T) {
+	h := vOpen("C16")
+	if h == nil {
+		t.Skip("VERIF_OUT not set")
+	}
+	c16cyQuiet()
+	var lists [][]int
+	lists = append(lists, nil)
+	for a := 0; a < 4; a++ {
+		lists = append(lists, []int{a})
+		for b := 0; b < 4; b++ {
+			lists = append(lists, []int{a, b})
+		}
+	}
+	caps := []int{-1, 1, 2}
+	idx := 0
+	for _, cn := range caps {
+		for _, cs := range caps {
+			for _, ct := range caps {
+				for _, l1 := range lists {
+					for _, l2 := range lists {
+						r := h.Begin(idx)
+						idx++
+						if r == nil {
+							continue
+						}
+						c16cyCase(h, r, &c16cyForced{capNode: cn, capNs: cs, capTotal: ct, ph: [3][]int{nil, l1, l2}})
+						h.End()
+					}
+				}
+			}
+		}
+	}
+	h.Close("exhaustive small scope: caps (node, namespace, total) in {nil,1,2}^3 x Deschedule-phase and Balance-phase attempt lists of length 0..2 over " +
+		"the pod kinds (n1,s0) (n2,s0) (n1,s1) and (n1,s0)-with-failing-API-call; one profile, the cycle is run twice. " +
+		"Non-trivial = a cycle issued evictions in both phases and refused at least one")
+}
+
+func c16cyCase(h *vHarness, r *vRand, fx *c16cyForced) {
 	dry := r.Chance(1, 8)
 	capNode, capNs, capTotal := c16cyCap(r), c16cyCap(r), c16cyCap(r)
 	if r.Bool() {
@@ -454,6 +493,9 @@ func c16cyCase(h *vHarness, r *vRand) {
 	nprof := 1
 	if r.Chance(1, 3) {
 		nprof = 2
+	}
+	if fx != nil {
+		dry, nprof, capNode, capNs, capTotal = false, 1, fx.capNode, fx.capNs, fx.capTotal
 	}
 	bind, mx := -1, -1
 	for _, c := range []int{capNode, capNs, capTotal} {
@@ -560,10 +602,30 @@ func c16cyCase(h *vHarness, r *vRand) {
 
 	seq := 0
 	cycles := r.Range(2, 5)
+	if fx != nil {
+		cycles = 2
+	}
 	h.Tag(fmt.Sprintf("cycles=%d", cycles))
 	var prev *c16cyTally // evictions issued by a cycle that was cut short by a process kill, until the next cycle has run
 	for c := 0; c < cycles; c++ {
 		script, mode := c16cyGenCycle(r, nprof, bind, mx, &seq)
+		if fx != nil {
+			script, mode = [3][][]c16cySpec{}, 9
+			for ph := 1; ph <= 2; ph++ {
+				var seg []c16cySpec
+				for _, kind := range fx.ph[ph] {
+					seq++
+					sp := c16cySpec{seq: seq, node: 1, ns: 0, apiOk: kind != 3, fresh: seq%2 == 0}
+					if kind == 1 {
+						sp.node = 2
+					} else if kind == 2 {
+						sp.ns = 1
+					}
+					seg = append(seg, sp)
+				}
+				script[ph] = [][]c16cySpec{seg}
+			}
+		}
 		h.Tag(fmt.Sprintf("cyc:mode=%d", mode))
 		w.beginCycle(script)
 		// 1/6 of the cycles: the process is killed in the middle of the cycle (between two evictions) and restarted;
@@ -574,7 +636,9 @@ func c16cyCase(h *vHarness, r *vRand) {
 				scripted += len(seg)
 			}
 		}
-		if scripted >= 2 && r.Chance(1, 6) {
+		if fx != nil {
+			// no kill, no plugin error
+		} else if scripted >= 2 && r.Chance(1, 6) {
 			w.crashAt = r.Range(1, scripted-1)
 		} else if r.Chance(1, 10) {
 			w.errPhase1 = true
@@ -745,6 +809,17 @@ func c16cyCase(h *vHarness, r *vRand) {
 			}
 		}
 	}
+}
+
+// the limiter logs every refusal with klog.ErrorS; keep the run quiet
+func c16cyQuiet() {
+	kfs := flag.NewFlagSet("c16cy-klog", flag.ContinueOnError)
+	klog.InitFlags(kfs)
+	_ = kfs.Set("logtostderr", "false")
+	_ = kfs.Set("alsologtostderr", "false")
+	_ = kfs.Set("stderrthreshold", "FATAL")
+	klog.LogToStderr(false)
+	klog.SetOutput(io.Discard)
 }
 
 func c16cyBucket(n int) string {
